@@ -233,7 +233,7 @@ def run(tier):
         for k, (base, ds) in enumerate(packs):
             r = rr[k]
             if r.stage == "run" and r.exit == 0:
-                frames = sem.split_frames(r.stdout)
+                frames = frames_keep_empty(r.stdout)
                 for j, (sig, e, pv) in enumerate(ds):
                     fr = frames.get(str(base + j), [])
                     ref = sem_show(pv)
@@ -285,6 +285,21 @@ def run(tier):
             "consts whose program does not build are not judged here (they are C02 material) but are counted in the evidence",
         ],
     )
+
+
+def frames_keep_empty(stdout):
+    """Like sem.split_frames but empty output lines are data here (a const may be the empty string)."""
+    lines = stdout.split("\n")
+    if lines and lines[-1] == "":
+        lines.pop()
+    frames, cur = {}, None
+    for line in lines:
+        if line.startswith("@@"):
+            cur = line[2:]
+            frames[cur] = []
+        elif cur is not None:
+            frames[cur].append(line)
+    return frames
 
 
 def sem_show(v):
